@@ -271,7 +271,7 @@ pub fn hex_big<S: Src>(s: &mut S, lo: u32, hi: u32) {
         BIG = true;
     }
     let r = avra_lib::writer::verif_generate_hex_from_segment(&img[..]);
-    cov!(r.is_ok() && len > 65536, "!image crosses the 64 KiB boundary");
+    cov!(r.is_ok() && len == hi, "!longest image of the window written");
     chk!(s, r.is_ok(), "C07: writer failed on an image it must be able to write");
     #[cfg(kani)]
     {
